@@ -101,7 +101,11 @@ def _stmt_lines(shape: Shape, f: str, i: int, s: Dict[str, str], args: Dict[Tupl
     # the callee of a keep must be a plain name (documented restriction, UNSUPPORTED_CALLABLE_TYPE)
     g = names[s["g"]] if k != "keep" else names.get("keep:" + s["g"], names[s["g"]])
     if k == "call":
+        if s["g"] in shape.real.get("as_class", []):
+            return ["    sv.append(%s().run())" % g]
         return ["    sv.append(%s())" % g]
+    if k == "eval":
+        return ["    sv.append(dds.eval(%s))" % g]
     if k == "ref":
         return ["    sv.append(L.apply(%s))" % g]
     assert k == "keep", s
@@ -132,15 +136,26 @@ def _fun_src(shape: Shape, f: str, prog: Dict[str, Any], names: Dict[str, str]) 
         lines.append("@dds.data_function(%r)" % shape.dpath[f])
     par = shape.param[f]
     sig = {"none": "", "x": "x", "xdef": "x=7"}[par]
-    lines.append("def %s(%s):" % (f, sig))
+    ind = ""
+    if f in shape.real.get("as_class", []):
+        lines.append("class K_%s(object):" % f)
+        lines.append("    def run(self):")
+        ind = "    "
+    else:
+        lines.append("def %s(%s):" % (f, sig))
+    start = len(lines)
     lines.append("    L.hit(%r)" % f)
     lines.append("    b = %d  # c%d" % (prog["body"][f], prog["cos"][f]))
+    if f in shape.untracked:
+        # non-accepted code: its text is editable but its value is fixed (DdsEval.ExtVal)
+        lines.append("    return [%r, 0, 99, [], []]" % f)
+        return lines
     lines.append("    rv = [%s]" % ", ".join("L.enc(%r, %s)" % (v, v) for v in shape.reads[f]))
     lines.append("    sv = []")
     for (i, s) in enumerate(shape.stmts[f]):
         lines += _stmt_lines(shape, f, i, s, args, names)
     lines.append("    return [%r, b, %s, rv, sv]" % (f, "x" if par != "none" else "99"))
-    return lines
+    return lines[:start] + [ind + l for l in lines[start:]]
 
 
 def _filler(n: int, tag: str) -> List[str]:
@@ -155,14 +170,35 @@ def _filler(n: int, tag: str) -> List[str]:
 HEADER = ["import datetime", "from pathlib import PurePosixPath", "import dds", "import _vlog as L"]
 
 
+EXT_PKG = "vext"
+
+
 def module_of(shape: Shape, layout: str) -> Dict[str, str]:
-    """function -> dotted module name"""
+    """function -> dotted module name (functions of shape.untracked live in the non-accepted
+    package vext whatever the layout)"""
+    res = _module_of(shape, layout)
+    for f in shape.untracked:
+        res[f] = EXT_PKG + ".um"
+    return res
+
+
+def _module_of(shape: Shape, layout: str) -> Dict[str, str]:
     if layout == "one":
         return {f: PKG + ".m" for f in shape.funs}
     if layout == "moved":
         return {f: PKG + ".moved.m2" for f in shape.funs}
     if layout == "split":
         return {f: "%s.sub_%s.mod_%s" % (PKG, f, f) for f in shape.funs}
+    if layout == "half":
+        # the root alone in one module, everything else in another one (unless something refers
+        # back to the root: a circular import is not what is being tested)
+        back = any(s["g"] == shape.root for f in shape.funs for s in shape.stmts[f] if s["k"] in ("call", "ref", "keep", "eval"))
+        if back:
+            return {f: PKG + ".m" for f in shape.funs}
+        side = set([shape.root2]) if shape.root2 else set()
+        return {f: (PKG + ".top.mroot" if f == shape.root or f in side else PKG + ".lib.inner.mrest") for f in shape.funs}
+    if layout == "deep6":
+        return {f: "%s.a.b.c.d.e.mod_%s" % (PKG, f) for f in shape.funs}
     if layout == "deep":
         return {f: "%s.a.b.c.d.mod_%s" % (PKG, f) for f in shape.funs}
     raise ValueError(layout)
@@ -188,10 +224,11 @@ def files_of(shape: Shape, prog: Dict[str, Any]) -> Dict[str, str]:
         needed = []
         for f in funs:
             for s in shape.stmts[f]:
-                if s["k"] in ("call", "ref", "keep") and mods[s["g"]] != mod and s["g"] not in needed:
+                if s["k"] in ("call", "ref", "keep", "eval") and mods[s["g"]] != mod and s["g"] not in needed:
                     needed.append(s["g"])
+        klass = shape.real.get("as_class", [])
         for g in shape.funs:
-            names[g] = g
+            names[g] = ("K_" + g) if g in klass else g
         kept_needed = set(s["g"] for f in funs for s in shape.stmts[f]
                           if s["k"] == "keep" and mods[s["g"]] != mod)
         for g in needed:
@@ -199,7 +236,9 @@ def files_of(shape: Shape, prog: Dict[str, Any]) -> Dict[str, str]:
             if import_form in ("module", "module_as") and g in kept_needed:
                 lines.append("from %s import %s as kept_%s" % (gm, g, g))
                 names["keep:" + g] = "kept_" + g
-            if import_form == "from":
+            if g in klass:
+                lines.append("from %s import K_%s" % (gm, g))
+            elif import_form == "from":
                 lines.append("from %s import %s" % (gm, g))
             elif import_form == "from_as":
                 lines.append("from %s import %s as alias_%s" % (gm, g, g))
